@@ -41,8 +41,9 @@ type QExpandTask struct {
 	Path     []Q      `json:"path"`
 	Alphabet []Q      `json:"alphabet"`
 	Key      string   `json:"key"`
-	Space    bool     `json:"space"` // apply the C12 space oracle at quiescent points
-	Probe    bool     `json:"probe"` // after each transition: drain probe on the (discarded) instance
+	Space    bool     `json:"space"`           // apply the C12 space oracle at quiescent points
+	Probe    bool     `json:"probe"`           // after each transition: drain probe on the (discarded) instance
+	Judge    bool     `json:"judge,omitempty"` // also report what the oracles say about Path itself (root of a seeded search)
 }
 
 // drainProbe runs on an instance that is thrown away afterwards: finish the
@@ -78,9 +79,10 @@ type QSucc struct {
 
 // QExpandResult is the answer.
 type QExpandResult struct {
-	EngineError string  `json:"engine_error,omitempty"`
-	Key         string  `json:"key"`
-	Succ        []QSucc `json:"succ"`
+	EngineError string              `json:"engine_error,omitempty"`
+	Key         string              `json:"key"`
+	Succ        []QSucc             `json:"succ"`
+	PathViol    []pagedrv.Violation `json:"path_viol,omitempty"`
 }
 
 // qReplay runs path (+extra) on a fresh queue instance under the scheduler.
@@ -136,6 +138,12 @@ func handleQExpand(raw []byte) interface{} {
 	})
 	if err != nil {
 		return QExpandResult{EngineError: "cannot create queue: " + err.Error()}
+	}
+	if t.Judge {
+		if v := append(append([]pagedrv.Violation{}, env.Viol...), sv...); len(v) > 0 {
+			res.PathViol = v
+			return res
+		}
 	}
 	if len(sv) > 0 || env.Dead {
 		return QExpandResult{EngineError: fmt.Sprintf("replay of an explored path failed: %v %v", sv, env.Viol)}
@@ -218,14 +226,25 @@ func qBFSx(ctx *core.Ctx, pool *par.Pool, cfg QCfgSpec, alphabet []Q, maxDepth i
 // every reported path).
 func qBFSfrom(ctx *core.Ctx, pool *par.Pool, cfg QCfgSpec, seed []Q, alphabet []Q, maxDepth int, space, probe bool, owns func(class string) bool,
 	onTransition func(from *QNode, s *QSucc, isNew bool)) xstate.Stats {
+	return qBFSroots(ctx, pool, cfg, [][]Q{seed}, alphabet, maxDepth, space, probe, owns, onTransition)
+}
+
+// qBFSroots searches from several start states at once (shared duplicate detection).
+func qBFSroots(ctx *core.Ctx, pool *par.Pool, cfg QCfgSpec, seeds [][]Q, alphabet []Q, maxDepth int, space, probe bool, owns func(class string) bool,
+	onTransition func(from *QNode, s *QSucc, isNew bool)) xstate.Stats {
 
 	var st xstate.Stats
-	root := &QNode{Quiet: true}
-	for _, op := range seed {
-		root = &QNode{Parent: root, Op: op, Quiet: true}
-	}
 	seen := map[string]*QNode{}
-	frontier := []*QNode{root}
+	roots := map[*QNode]bool{}
+	var frontier []*QNode
+	for _, seed := range seeds {
+		root := &QNode{Quiet: true}
+		for _, op := range seed {
+			root = &QNode{Parent: root, Op: op, Quiet: true}
+		}
+		roots[root] = true
+		frontier = append(frontier, root)
+	}
 	first := true
 	for depth := 0; len(frontier) > 0; depth++ {
 		if maxDepth > 0 && depth >= maxDepth {
@@ -238,7 +257,8 @@ func qBFSfrom(ctx *core.Ctx, pool *par.Pool, cfg QCfgSpec, seed []Q, alphabet []
 		}
 		tasks := make([][]byte, len(frontier))
 		for i, n := range frontier {
-			tasks[i], _ = json.Marshal(QExpandTask{Type: "qexpand", Cfg: cfg, Path: n.Path(), Alphabet: alphabet, Key: n.Key, Space: space, Probe: probe})
+			tasks[i], _ = json.Marshal(QExpandTask{Type: "qexpand", Cfg: cfg, Path: n.Path(), Alphabet: alphabet, Key: n.Key, Space: space, Probe: probe,
+				Judge: first && roots[n] && n.Parent != nil})
 		}
 		var next []*QNode
 		skipped := 0
@@ -253,10 +273,19 @@ func qBFSfrom(ctx *core.Ctx, pool *par.Pool, cfg QCfgSpec, seed []Q, alphabet []
 				ctx.EngineError("qexpand %s [%s]: %v %s", cfg, queuedrv.PathString(from.Path()), err, r.EngineError)
 				return
 			}
-			if first && from == root {
-				root.Key = r.Key
-				seen[r.Key] = root
-				st.States++
+			for _, v := range r.PathViol {
+				if owns != nil && !owns(v.Class) {
+					continue
+				}
+				ctx.Violate(v.Class, fmt.Sprintf("queue %s after [%s] (seed history of this search): %s", cfg, queuedrv.PathString(from.Path()), v.Msg),
+					QPathDoc{Kind: "qpath", Cfg: cfg, Path: from.Path(), Space: space, Probe: probe})
+			}
+			if first && roots[from] {
+				from.Key = r.Key
+				if _, dup := seen[r.Key]; !dup {
+					seen[r.Key] = from
+					st.States++
+				}
 			}
 			for k := range r.Succ {
 				s := &r.Succ[k]
